@@ -8,6 +8,8 @@ IF = "src/allmydata/immutable/filenode.py"
 LIT = "src/allmydata/immutable/literal.py"
 BL = "src/allmydata/blacklist.py"
 U = "src/allmydata/uri.py"
+EU = "src/allmydata/util/encodingutil.py"
+NORM = "def normalize(namex):\n    return unicodedata.normalize('NFC', namex)\n"
 
 ENTRY = ("            entry = b\"\".join([netstring(name.encode(\"utf-8\")),\n"
          "                             netstring(strip_prefix_for_ro(ro_uri, deep_immutable)),\n"
@@ -638,6 +640,52 @@ MUTANTS = [
       "    if s.startswith((ALLEGED_IMMUTABLE_PREFIX, ALLEGED_READONLY_PREFIX)):\n"
       "        can_be_mutable = can_be_writeable = False\n"
       "        s = s[len(ALLEGED_READONLY_PREFIX):]\n", "C19.12"),
+    # ---- C19.14 what normalize() answers
+    M("normalize-skips-names-without-combining-marks", EU, NORM,
+      "def normalize(namex):\n    if not any(unicodedata.combining(c) for c in namex):\n        return namex\n"
+      "    return unicodedata.normalize('NFC', namex)\n", "C19.14",
+      note="seeded C19-H: NFC also rewrites singletons (U+212B), Hangul jamo, composition exclusions"),
+    M("normalize-skips-latin1-names", EU, NORM,
+      "def normalize(namex):\n    if max(namex, default='') < '\\u0100':\n        return namex\n"
+      "    return unicodedata.normalize('NFC', namex)\n", "C19.14",
+      note="same effect, other shortcut: code points below U+0100 are not all NFC-inert in combination (and U+00C5 vs "
+           "U+212B shows the test is on the wrong side)"),
+    M("normalize-skips-when-nfd-normalised", EU, NORM,
+      "def normalize(namex):\n    if unicodedata.is_normalized('NFD', namex):\n        return namex\n"
+      "    return unicodedata.normalize('NFC', namex)\n", "C19.14"),
+    M("normalize-ifexp-short-names", EU, NORM,
+      "def normalize(namex):\n    return namex if len(namex) < 2 else unicodedata.normalize('NFC', namex)\n", "C19.14"),
+    M("normalize-to-nfkc", EU, NORM,
+      "def normalize(namex):\n    return unicodedata.normalize('NFKC', namex)\n", "C19.14"),
+    M("normalize-result-dropped", EU, NORM,
+      "def normalize(namex):\n    name = namex\n    if not namex.isascii():\n        unicodedata.normalize('NFC', namex)\n"
+      "    return name\n", "C19.14"),
+    M("dirnode-own-normalize", D,
+      "from allmydata.util.encodingutil import quote_output, normalize\n",
+      "from allmydata.util.encodingutil import quote_output\n\ndef normalize(namex):\n"
+      "    return namex.strip() if namex.isprintable() else namex\n\n", "C19.14",
+      note="sibling site: the directory code binds the name to something else"),
+    M("benign-normalize-ascii-fast-path", EU, NORM,
+      "def normalize(namex):\n    if namex.isascii():\n        return namex\n"
+      "    return unicodedata.normalize('NFC', namex)\n", None,
+      note="ASCII strings are NFC-inert: a fast path that is behaviour-preserving"),
+    M("benign-normalize-quick-check", EU, NORM,
+      "def normalize(namex):\n    form = 'NFC'\n    if unicodedata.is_normalized(form, namex):\n        return namex\n"
+      "    name = unicodedata.normalize(form, namex)\n    return name\n", None),
+    M("benign-normalize-one-exit", EU, NORM,
+      "def normalize(namex):\n    name = namex\n    if not namex.isascii():\n"
+      "        name = unicodedata.normalize('NFC', namex)\n    return name\n", None),
+    M("benign-normalize-ifexp-ascii", EU, NORM,
+      "def normalize(name_x):\n    return name_x if name_x.isascii() else unicodedata.normalize('NFC', name_x)\n", None),
+    M("benign-normalize-ascii-by-encode", EU, NORM,
+      "def normalize(namex):\n    try:\n        namex.encode('ascii')\n    except UnicodeEncodeError:\n"
+      "        return unicodedata.normalize('NFC', namex)\n    return namex\n", None),
+    M("benign-dirnode-normalize-wrapper", D,
+      "from allmydata.util.encodingutil import quote_output, normalize\n",
+      "from allmydata.util import encodingutil\nfrom allmydata.util.encodingutil import quote_output\n\n"
+      "def normalize(namex):\n    return encodingutil.normalize(namex)\n\n", None),
+    M("vanish-normalize", EU, NORM,
+      "def normalize_name(namex):\n    return unicodedata.normalize('NFC', namex)\n", "ANALYSIS-ERROR"),
     # ---- vanished anchor
     M("vanish-unpack", D,
       "    def _unpack_contents(self, data):", "    def _unpack_contentsX(self, data):", "ANALYSIS-ERROR"),
